@@ -30,6 +30,8 @@ type Term struct {
 	TagByType bool `json:"tag_by_type,omitempty"`
 	// Redeclare: declared twice (%token <tag> X, then %token X n) as examples/exprobj.y does
 	Redecl bool `json:"redecl,omitempty"`
+	// Alias: a "string" alias that every layout writes after the name (only for tokens without an explicit number)
+	Alias string `json:"alias,omitempty"`
 }
 
 // Key is how the symbol is written in the grammar file.
